@@ -14,7 +14,7 @@ ASSUMPTIONS = ["the sum of the constant terms is non-zero (else the group key is
 TRUSTED = ["modelled, not verified: field/module laws of the curve libraries; HDKG (any function in the theorems)"]
 
 
-def run(sess, suite, n, t, kind, clones=0, zero_share=False):
+def run(sess, suite, n, t, kind, clones=0, zero_share=False, zero_draw=None):
     rng = sess.rng
     fld = Fld(suite)
     start = len(sess.records)
@@ -33,6 +33,15 @@ def run(sess, suite, n, t, kind, clones=0, zero_share=False):
         a1 = (-a0 * fld.inv(fld.dec(b))) % fld.q
         d.tapes[a] = (scalar_draw(suite, a0) + scalar_draw(suite, a1)).hex() + sess.tape(512)
         sess.count("zero-valued round-two share")
+    if zero_draw is not None:
+        # one participant's source delivers an all-zero block where the key ("key") or the proof-of-knowledge nonce
+        # ("nonce") is drawn: it is discarded and redrawn, the honest run completes like any other
+        who = ids[-1]
+        pos = 0 if zero_draw == "key" else t
+        dl = DRAW_LEN[suite]
+        body = bytes.fromhex(sess.tape(dl * (t + 4)))
+        d.tapes[who] = (body[:dl * pos] + bytes(dl) + body[dl * pos:]).hex()
+        sess.count("zero draw at the " + zero_draw)
     d.run(same)
     rp = lambda: [x[0] for x in sess.records[start:]]
     if not sess.oracle(d.ok, "honest DKG step failed (%s)" % (getattr(d, "err", None) and d.err.raw), rp()):
@@ -77,6 +86,8 @@ def generate(sess):
         evalpoly_stream(sess, suite, 30 if thorough else 10)
         run(sess, suite, 3, 2, "default", clones=2)
         run(sess, suite, 3, 2, rng.choice(["default", "u16", "scalar"]), zero_share=True)
+        for zd in ("key", "nonce"):
+            run(sess, suite, 3, 2, "default", zero_draw=zd)
         if thorough or suite in TOY_SUITES:
             run(sess, suite, 4, 3, rng.choice(ID_KINDS), clones=rng.choice([2, 3]))
     for suite in TOY_SUITES:
